@@ -647,6 +647,11 @@ class _Ctx:
             kws[k.arg] = v
             if k.arg == "out" and v.reach:
                 self.sink(self._cur_stmt, f"out= argument '{norm(k.value)}' in call {norm(e.func)}(...)", v.reach)
+            if k.arg.startswith("overwrite_") and not (isinstance(k.value, ast.Constant) and k.value.value in (False, None)):
+                # scipy's overwrite_x / overwrite_a / overwrite_input ...: permission to destroy the operand
+                firsts = [a_ for a_ in args[:1] if a_.reach]
+                if firsts:
+                    self.sink(self._cur_stmt, f"{k.arg}={norm(k.value)} in call {norm(e.func)}(...) lets the callee overwrite its operand", firsts[0].reach)
         allv = list(args) + list(kws.values()) + starkw
 
         res = self.an.resolve_callee(self.fi, e.func)
